@@ -143,6 +143,7 @@ type Summary struct {
 	Steps       uint64            `json:"steps"`
 	Switches    int               `json:"switches"`
 	SimTimeNs   int64             `json:"sim_time_ns"`
+	SimTimeS    float64           `json:"sim_time_s"`
 	WallUs      int64             `json:"wall_us"`
 	Counters    map[string]int    `json:"counters"`
 	Sites       []string          `json:"sites"`
@@ -417,6 +418,7 @@ func mergeInto(t, s *Summary, sigs, sites map[string]struct{}) {
 	t.Steps += s.Steps
 	t.Switches += s.Switches
 	t.SimTimeNs += s.SimTimeNs
+	t.SimTimeS += s.SimTimeS
 	t.WallUs += s.WallUs
 	t.ViolCount += s.ViolCount
 	t.DetChecked += s.DetChecked
@@ -850,8 +852,16 @@ func cmdCheck(args []string) int {
 		writeEvidence(pc, *tier, seed, total, reported, wall, buildS, b.info, tree, W, kernelExtra)
 	}
 	fmt.Printf("%s %s: %d runs (%d non-trivial, %d distinct interleavings), %d steps, sim time %s, %d violating runs, %.1fs wall (build %.1fs)\n",
-		id, *tier, total.Runs, total.NonTrivial, len(total.Signatures), total.Steps, time.Duration(total.SimTimeNs), total.ViolCount, wall, buildS)
+		id, *tier, total.Runs, total.NonTrivial, len(total.Signatures), total.Steps, simTime(total.SimTimeS), total.ViolCount, wall, buildS)
 	return exit
+}
+
+// simTime prints simulated seconds (hours beyond an hour; no int64 nanoseconds: thorough tiers exceed 292 years).
+func simTime(s float64) string {
+	if s >= 3600 {
+		return fmt.Sprintf("%.1fh", s/3600)
+	}
+	return time.Duration(s * 1e9).String()
 }
 
 func min(a, b int) int {
@@ -938,7 +948,7 @@ func writeEvidence(pc *propCfg, tier string, seed uint64, t *Summary, reported [
 			"nontrivial_runs":                t.NonTrivial,
 			"runs_per_hour":                  float64(t.Runs) / runS * 3600,
 			"seeds_per_hour":                 float64(t.Runs) / runS * 3600,
-			"simulated_time_s":               float64(t.SimTimeNs) / 1e9,
+			"simulated_time_s":               t.SimTimeS,
 			"kernel_steps":                   t.Steps,
 			"context_switches":               t.Switches,
 			"distinct_switch_pairs_max_proc": t.SwitchPairs,
